@@ -16,6 +16,7 @@
 *  Dependencies
 ****************************************************************/
 #include "../common/zstd_deps.h"  /* ZSTD_memcpy, ZSTD_memset */
+#include "../common/zstd_verif.h"  /* ZSTD_VERIF_COIN, ZSTD_VERIF_PROBE : inert unless ZSTD_VERIF_SIM */
 #include "../common/compiler.h"
 #include "../common/bitstream.h"  /* BIT_* */
 #include "../common/fse.h"        /* to compress headers */
@@ -1837,6 +1838,11 @@ U32 HUF_selectDecoder (size_t dstSize, size_t cSrcSize)
         U32 const DTime0 = algoTime[Q][0].tableTime + (algoTime[Q][0].decode256Time * D256);
         U32 DTime1 = algoTime[Q][1].tableTime + (algoTime[Q][1].decode256Time * D256);
         DTime1 += DTime1 >> 5;  /* small advantage to algorithm using less memory, to reduce cache eviction */
+#ifdef ZSTD_VERIF_SIM
+        /* both decoders are valid for every input : let the simulator pick the one the heuristic would not */
+        if (ZSTD_VERIF_COIN(ZSTD_VC_hufSelectDecoder)) { ZSTD_VERIF_PROBE((DTime1 < DTime0) ? ZSTD_VP_hufX1 : ZSTD_VP_hufX2); return !(DTime1 < DTime0); }
+        ZSTD_VERIF_PROBE((DTime1 < DTime0) ? ZSTD_VP_hufX2 : ZSTD_VP_hufX1);
+#endif
         return DTime1 < DTime0;
     }
 #endif
